@@ -144,7 +144,10 @@ func ProfileFor(prop string) *Profile {
 		p.PCrashRun = 0.4
 		p.PRouted = 0.7
 		p.PTiny = 0.1
-		p.PFine = 0.3
+		p.PFine = 0.15
+		p.PLazyOnly = 0.05
+		p.Prologue = "tasks"
+		p.TimeoutRel = []int64{0, 1000, 5000, 60000, 10_000_000, 10_000_000, 10_000_000}
 		p.Promises = []string{"p0", "p1", "a:b", "b:c", "a"}
 	case "C15":
 		p.PFront = 1
@@ -158,7 +161,7 @@ func ProfileFor(prop string) *Profile {
 		p.PTiny = 0.05
 		p.PFaultRun = 0.2
 		p.PRouted = 0.6
-		p.Promises = []string{"p0", "A", "a", "a ", "a/b", "a:b", "ä", "<a&b>", "a%2Fb", "a.b", "{x}", "a?b=c"}
+		p.Promises = []string{"p0", "A", "a", "a ", "a/b", "a:b", "ä", "<a&b>", "a%2Fb", "a.b", "{x}", "a?b=c", "a+b/c", "a b/c", "1+1,2", "a+b"}
 		p.Subs = []string{"s0", "s:1", "S0"}
 		p.Schedules = []string{"s0", "S0", "a<b&c", "s/1"}
 		p.Resources = []string{"l0", "L0", "l 0"}
